@@ -19,7 +19,7 @@ use crate::util::*;
 pub const PROP: Prop = Prop {
     id: "C01",
     level: "exploration",
-    rule: "values from the recursive generator G_value(default dialect), towers of up to 60 (100) nesting levels, wide values (lists and vectors of 100-400 (1500) elements repeating a few small units: dotted pairs, improper lists, vectors, nested lists, atoms) plus enumerated sweeps (scalars as chars and 1-char strings, byte singletons, integer boundary table, float table); each value is printed through 5 entry points, parsed through 4, and read by the independent R7RS reader; non-trivial = contains a list/vector, or an atom whose text is not its payload verbatim (escape, #\\x form, exponent form, negative number, keyword, byte vector); distinct by digest of the model value",
+    rule: "values from the recursive generator G_value(default dialect), towers of up to 60 (100) nesting levels, wide values (lists and vectors of 100-400 (1500) elements repeating a few small units: dotted pairs, improper lists, vectors, nested lists, atoms), atoms of 256 B .. 64 KiB (128 KiB) with a multi-byte character straddling the size threshold, every plain identifier of up to 3 (4) characters over a 9-character alphabet plus enumerated sweeps (scalars as chars and 1-char strings, byte singletons, integer boundary table, float table); each value is printed through 5 entry points, parsed through 4, and read by the independent R7RS reader; non-trivial = contains a list/vector, or an atom whose text is not its payload verbatim (escape, #\\x form, exponent form, negative number, keyword, byte vector); distinct by digest of the model value",
     assumptions: &[
         "plain identifier = R7RS <identifier> productions without |..| and without the numeric look-alikes +i -i +inf.0 -inf.0 +nan.0 -nan.0",
         "float acceptance per DESIGN.md A.4: bit-exact in the noff build; in the ff build bit-exact when the shortest form has <=15 significant digits, fits 2^53 and |exponent|<=22 under the written, effective and scientific reading; otherwise within 2^-50 relative (1.25 slack for the half-ulp between the double and its shortest decimal)",
@@ -302,6 +302,13 @@ fn run(ctx: &mut Ctx) {
     );
     // wide values: hundreds of repetitions of each construct in one text
     ctx.run_prop("wide", tier.pick(400, 10_000), g_wide(cfg(tier), tier.pick(400, 1500)), check_value);
+    // atoms at the buffer-size thresholds (256 B .. 64 KiB, thorough 128 KiB), alone and followed by a string
+    ctx.run_prop(
+        "big-atoms",
+        tier.pick(60, 600),
+        (g_big_atom(tier.pick(65536, 131072)), any::<bool>()).prop_map(|(a, alone)| if alone { a } else { MV::list(vec![a, MV::Str("after".into()), MV::sym("tail")]) }),
+        check_value,
+    );
     // floats on their own: 2*10^6 draws in the thorough tier
     ctx.run_prop(
         "floats",
@@ -322,6 +329,14 @@ fn run(ctx: &mut Ctx) {
         check_value,
     );
 
+    // every plain identifier of up to 3 (4) characters over a 9-character
+    // alphabet, as a symbol and as a keyword, alone and inside a list
+    let ids = small_identifiers(tier.pick(3, 4), IdentRules::default());
+    ctx.par_sweep("small-identifiers", ids.par_iter(), |id| {
+        let v = MV::list(vec![MV::Sym(id.clone()), MV::Kw(id.clone()), MV::List(vec![MV::U(1)], Box::new(MV::Sym(id.clone())))]);
+        check_value(&v).and_then(|_| check_value(&MV::Sym(id.clone()))).and_then(|_| check_value(&MV::Kw(id.clone())))
+    });
+    ctx.exhaustive.push(format!("every plain identifier of length <= {} over the alphabet a λ + - . @ 1 : ! ({} names), as symbol and keyword, at top level and in a list", tier.pick(3, 4), ids.len()));
     // ---- enumerated sweeps
     // every byte as a singleton byte vector, every pair in the thorough tier
     ctx.par_sweep("bytes1", (0u32..256).into_par_iter(), |b| {
